@@ -6,12 +6,14 @@ from ..core.model import AnalysisError, Program
 from ..core.report import CheckContext
 from ..core.resolve import Resolver
 from ..rules import bookkeeping as bk, derived, scale
-from .common import run_control, generic_rules
+from ..rules import inval as _inval_rl
+from .common import run_control, generic_rules, anchor_funcs
 
 
 def analyse(ctx: CheckContext, p: Program):
     r = Resolver(p)
     ctx.guard(generic_rules, ctx, p, r, "C01", extra_modules=("OpenPinch/analysis/data_preparation.py",))
+    ctx.guard(_inval_rl.check_round_last, ctx, p, r, anchor_funcs(p, "C01"))
     ctx.guard(_specific, ctx, p, r)
 
 
